@@ -39,6 +39,7 @@ pub fn strategy() -> impl Strategy<Value = Case> {
         3 => any::<u16>().prop_map(Op::Delete),
         1 => any::<u16>().prop_map(Op::BulkCreate),
         2 => Just(Op::PackRefs),
+        1 => any::<u16>().prop_map(Op::CaseVariant),
     ];
     let step = prop_oneof![
         4 => repo.prop_map(Step::Repo),
